@@ -467,7 +467,7 @@ def run(rep, prog, thorough):
     check_prettyprint(rep, prog, check_call_sites(rep, prog))
 
 
-def check_getDisplayCompID(rep, prog):
+def check_getDisplayCompID(rep, prog, rule="C02.R3.compid"):
     """PHYP: two ASCII characters when both bytes non-zero else %04X; others: %04X or registry name.
     The return summary is an ite tree; it is walked for every combination of its boolean atoms
     and a boundary set of component ids, and the selected alternative must have the spec's shape."""
@@ -477,7 +477,6 @@ def check_getDisplayCompID(rep, prog):
     cre = Sym("creatorID")
     r = I.call("pel.peltool.comp_id.getDisplayCompID", [comp, cre])
     where = "getDisplayCompID"
-    rule = "C02.R3.compid"
     creators = spec_table("creatorIDs")
     atoms = [a for a in pelx.cond_atoms(r) if a != comp]
     # classify atoms
